@@ -62,7 +62,12 @@ def scalar_leaf(ctx):
     if z < 0.9:
         physical = bool(r.random() < 0.4)
         shp = [(), (), (ctx.dim,), (ctx.dim, ctx.dim)][int(r.integers(0, 4))]
-        name = ctx.new_field(shp, physical, updatable=bool(r.random() < 0.2))
+        reuse = [n for n, f in ctx.fields.items() if len(f['shape']) <= 1] if r.random() < 0.3 else []
+        if reuse:
+            # the same input field again (possibly at another derivative order)
+            name = reuse[int(r.integers(0, len(reuse)))]; shp = tuple(ctx.fields[name]['shape']); physical = ctx.fields[name]['physical']
+        else:
+            name = ctx.new_field(shp, physical, updatable=bool(r.random() < 0.3))
         e = ['field', name]
         if len(shp) == 1: e = ['idx', e, int(r.integers(0, shp[0]))]
         elif len(shp) == 2: e = ['idx', e, ['m', int(r.integers(0, shp[0])), int(r.integers(0, shp[1]))]]
